@@ -15,10 +15,10 @@ EXPLANATION = (
     "by name and its subdirectories by apath before queueing, children go to the entry queue and subdirectories "
     "only to the directory queue; (3) every hand-written construction of an Apath from an external string is behind "
     "is_valid (append takes one file-system name)."
-    " Added: is_valid carries the complete set of tests for the idiom it uses (C11.3b); the comparator byte-compares single components only (C11.1d)."
+    " Added: is_valid carries the complete set of tests for the idiom it uses and the failing outcome of each test can never lead to acceptance (C11.3b: presence and polarity); the comparator byte-compares single components only (C11.1d)."
 )
 UNDECIDED = ["totality / transitivity / agreement of the comparator with the documented rule for all strings",
-             "the language accepted by is_valid beyond the presence of the complete test set for the idiom used (C11.3b)", "serde's derive(Deserialize) bypasses is_valid (reported as an observation, see C10)"]
+             "the language accepted by is_valid beyond the presence and polarity of the complete test set for the idiom used (C11.3b)", "serde's derive(Deserialize) bypasses is_valid (reported as an observation, see C10)"]
 ASSUMPTIONS = []
 
 ORDER_CALLS = ("std::cmp::Ord::cmp", "std::cmp::PartialOrd::lt", "std::cmp::PartialOrd::le", "std::cmp::PartialOrd::gt",
@@ -427,6 +427,7 @@ def _is_valid_language(ck, w):
                     fam.append(x_)
                     work_.append(x_)
     tests = set()
+    occ = []          # (body, event, test, is strip_prefix, negated)
     has_split = False
     for fb in fam:
         for e in fb.events:
@@ -450,12 +451,17 @@ def _is_valid_language(ck, w):
                     if pat == "/":
                         has_split = True
                 else:
+                    if meth == "is_empty" and fb.name == b.name and \
+                            not any(x[0] == "call" and re.search(r"::next$", x[1]) for x in flow.origins_x(lib, fb, e.args[0])):
+                        continue      # emptiness of the whole remainder ("/" itself), not of a component
                     tests.add((meth, pat))
+                    occ.append((fb, e, (meth, pat), m.group(1) == "strip_prefix", False))
             if e.callee == "std::cmp::PartialEq::eq" or e.callee == "std::cmp::PartialEq::ne":
                 for a in e.args:
                     for x in flow.origins(fb, a):
                         if x[0] == "const" and x[1] == "str":
                             tests.add(("eq", x[2]))
+                            occ.append((fb, e, ("eq", x[2]), False, e.callee.endswith("::ne")))
     NUL = chr(0)
     need_a = {("starts_with", "/"), ("is_empty", None), ("eq", "."), ("eq", ".."), ("contains", NUL)}
     need_b = {("starts_with", "/"), ("ends_with", "/"), ("contains", "//"), ("contains", "/./"), ("ends_with", "/."),
@@ -465,10 +471,39 @@ def _is_valid_language(ck, w):
 
     def show(ms):
         return sorted("%s(%r)" % (m, p) if p is not None else m for m, p in ms)
-    if has_split and not miss_a:
-        ck.ok(o, "per-component idiom: %s" % show(need_a), instances=len(need_a))
+    # polarity: the FAILING outcome of each required test (no leading '/', an empty / '.' / '..' component, a NUL ...)
+    # never leads to acceptance - a `true` result, a result computed later, or the next turn of the component loop
+    wrong = []
+    need = need_a if has_split else need_b
+    for fb, e, tst, is_strip, negated in occ:
+        if tst not in need:
+            continue
+        bad_pol = (tst[0] != "starts_with") != negated       # the outcome that means "not a valid apath"
+        defs_ = rules._bool_defs(fb, 0) if (fb.ret or "") == "bool" else []
+        accept = {d[0] for d in defs_ if (d[1] == "const" and d[2] is True) or d[1] == "unknown" or (d[1] == "call" and d[2] is not e)}
+        accept |= {x.bb for x in fb.events if x.bb in fb.live and re.search(r"Iterator>?::next$", x.name) and x.bb != e.bb}
+        if is_strip:
+            bad_edges = flow.none_edges(fb, e)[0]
+        else:
+            bad_edges = rules.bool_switch_edges(fb, e, bad_pol)
+        if bad_edges:
+            for (u_, v_) in bad_edges:
+                if fb.reachable(v_) & accept:
+                    wrong.append((fb, e, tst))
+                    break
+        else:
+            # the test's result IS the function's result (possibly negated): true must mean the good outcome
+            mine = [d for d in defs_ if d[1] == "call" and d[2] is e]
+            if not mine or any((True != d[3]) == bad_pol for d in mine):
+                wrong.append((fb, e, tst))
+    if wrong and ((has_split and not miss_a) or (not has_split and not miss_b)):
+        for fb, e, tst in wrong:
+            ck.fail(o, b.name, "is_valid accepts after the failing outcome of %s" % ("%s(%r)" % tst if tst[1] is not None else tst[0]),
+                    "in %s the outcome of %s that marks an invalid path can still lead to `true`" % (fb.name, show([tst])[0]), e.site())
+    elif has_split and not miss_a:
+        ck.ok(o, "per-component idiom: %s; each failing outcome rejects" % show(need_a), instances=len(need_a))
     elif not has_split and not miss_b:
-        ck.ok(o, "pattern-scan idiom: %s" % show(need_b), instances=len(need_b))
+        ck.ok(o, "pattern-scan idiom: %s; each failing outcome rejects" % show(need_b), instances=len(need_b))
     else:
         miss = miss_a if has_split else miss_b
         for mth, pat in sorted(miss, key=str):
